@@ -441,9 +441,12 @@ W_CLAUSES = {1: 'returned bytes are not the declared body at the cursor (prefix)
              5: 'bytes taken from wsgi.input but not returned (loss)', 6: 'result shape / unexpected exception',
              7: 'empty result although the declared body is not over'}
 A_CLAUSES = {1: 'returned bytes are not the declared body at the cursor (prefix)', 2: 'sized read returned more than its size',
-             3: 'receive() awaited although Content-Length bytes had been received', 4: 'tell() disagrees with the bytes returned',
-             5: 'eof reported before the whole declared body was returned', 6: 'receive() awaited after a disconnect',
-             7: 'empty read although not at end-of-stream', 8: 'result shape / undocumented exception'}
+             3: 'receive() awaited although Content-Length bytes had been received',
+             4: 'tell() is not the cursor (bytes returned + bytes skipped by exhaust)',
+             5: 'eof reported on an open stream before the cursor reached the end of the declared body',
+             6: 'receive() awaited after a disconnect',
+             7: 'empty read although not at end-of-stream', 8: 'result shape / undocumented exception',
+             9: 'bytes returned after eof had been reported'}
 
 
 def wsgi_in_domain(case):
@@ -459,7 +462,7 @@ def wsgi_obs_wire(case, r):
 
 def asgi_obs_wire(case, r):
     first, cl, events, ops = case
-    return [3, wire_first(first), wire_opt(cl), [wire_event(e) for e in events], r[0][0],
+    return [3, wire_first(first), wire_opt(cl), [wire_event(e) for e in events], r[0][0], r[0][1],
             [[wire_aop(o)] + jd(x) for o, x in zip(ops, r[1])]]
 
 
